@@ -415,6 +415,16 @@ func URLRequest(t *rapid.T, ss *SchemaSpec, o URLOpts) *URLReq {
 				items = append(items, it)
 			}
 
+			// A name given twice, taken from the far end of the type's
+			// sorted field list (of a wide type: beyond the 64th field).
+			if fts := ss.Type(tn); !o.Valid && fts != nil && len(fts.Fields()) > 0 && rapid.IntRange(0, 5).Draw(t, "twice") == 0 {
+				fs := fts.Fields()
+				d := fs[len(fs)-1-rapid.IntRange(0, min(len(fs)-1, 4)).Draw(t, "twice-rank")]
+				at := rapid.IntRange(0, len(items)).Draw(t, "twice-at")
+				items = append(items[:at:at], append([]string{d}, items[at:]...)...)
+				items = append(items, d)
+			}
+
 			r.Params = append(r.Params, QParam{"fields[" + tn + "]", strings.Join(items, ",")})
 		case "sort":
 			pool := append([]string{"id", "-id"}, attrNames(resType)...)
